@@ -1411,7 +1411,7 @@ def main(argv=None):
     ]
     pr = total.probe
     res.probes = [
-        {"assumption": f"the library's schedule read with fresh memos equals the own evaluator under the global durations before drawing ({pr['oracle_vs_library_checked']} circuits-configurations, {pr['oracle_vs_library_mismatch']} mismatches); composite duration is evaluated with the library's leaf / depth-1 definition (C04 is judged elsewhere)", "ok": pr["oracle_vs_library_mismatch"] == 0},
+        {"assumption": f"the library's schedule read with fresh memos equals the own evaluator under the global durations before drawing ({pr['oracle_vs_library_checked']} circuits-configurations, {pr['oracle_vs_library_mismatch']} mismatches); composite duration = earliest start to latest end over every member (C04 itself is judged elsewhere)", "ok": pr["oracle_vs_library_mismatch"] == 0},
         {"assumption": f"the circuit is observed through circuit.operations, whose first call re-links relation-less children of sub-circuits (seen in {pr['first_read_relinks']} cases, happens on any read); the drawing itself must not re-link anything (checked as a clause)", "ok": True},
         {"assumption": f"two-qubit kinds without a draw factory (TwoQubitOperation, TwoQubitVirtualPhase) are silently not drawn ({pr['not_drawn_two_qubit']} operation instances); they are treated as non-drawable kinds", "ok": True},
         {"assumption": f"simultaneous two-qubit gates with overlapping row ranges are displaced on purpose; accepted up to half the gate duration ({pr['overlap_offsets']} displaced placements, max |dx|/duration {pr['overlap_max_ratio']:.3f})", "ok": True},
